@@ -6,7 +6,105 @@ import traceback
 
 from harness import common, diffexec, propkit
 
-VFILES = ["theories/Namespace.v", "theories/Lower.v", "theories/Depth.v"]
+VFILES = ["theories/Namespace.v", "theories/Lower.v", "theories/Depth.v", "theories/DepthElif.v"]
+
+# ---- the program families of the height theorems (Depth.v, DepthElif.v), written as Python source: the model's output for
+# them is compared with the real converter's output tree (equality), and the height the theorem states is measured on the REAL
+# tree.  (list wrapper?, short_circuit?) -> bound; "exact" = the theorem states an equality.
+_M = "m(0)\n"
+
+
+def th_marks(n):
+    return _M * n
+
+
+def th_guard(n):
+    return "while c(0):\n    if c(1):\n        break\n" + "    m(0)\n" * n
+
+
+def th_cont(n):
+    return "for x in it(0):\n    if c(1):\n        continue\n" + "    m(0)\n" * n
+
+
+def th_ret(n):
+    return "def f():\n    if c(1):\n        return\n" + "    m(0)\n" * n
+
+
+def th_elif(n):
+    if n == 0:
+        return _M
+    return "if c(0):\n    m(0)\n" + "elif c(0):\n    m(0)\n" * (n - 1) + "else:\n    m(0)\n"
+
+
+# family -> (source builder, {(chain, short): (kind, bound(n))})
+THEOREM_FAMILIES = {
+    "marks": (th_marks, {(False, False): ("le", lambda n: 3)}),
+    "guard_prog": (th_guard, {(False, False): ("le", lambda n: 7)}),
+    "cont_prog": (th_cont, {(False, False): ("le", lambda n: 6)}),
+    "ret_prog": (th_ret, {(False, False): ("le", lambda n: 8)}),
+    "elif_chain": (th_elif, {(False, True): ("le", lambda n: 6), (False, False): ("eq", lambda n: n + 2)}),
+}
+
+
+def py_height(node):
+    """Depth.height on a CPython tree: expression nodes count one level each; comprehension clauses, keywords and parameter
+    lists are transparent containers; operators and contexts do not count"""
+    import ast
+    best = 0
+    stack = [(node, 1)]
+    while stack:
+        nd, h = stack.pop()
+        if h > best:
+            best = h
+        for ch in ast.iter_child_nodes(nd):
+            if isinstance(ch, ast.expr):
+                stack.append((ch, h + 1))
+            elif isinstance(ch, (ast.comprehension, ast.keyword, ast.arguments)):
+                stack.append((ch, h))
+            elif isinstance(ch, ast.arg):
+                pass
+    return best
+
+
+def theorem_families(chk):
+    import ast
+    import symtable
+    from harness import lowercorr
+    conv = sys.modules["oneliner.convert"].convert if "oneliner.convert" in sys.modules else None
+    if conv is None:
+        import oneliner  # noqa: F401
+        conv = sys.modules["oneliner.convert"].convert
+    sizes = [0, 1, 2, 3, 17, 120] if chk.tier == "quick" else [0, 1, 2, 3, 5, 17, 60, 120, 400]
+    sources = []
+    measured = {}
+    old = sys.getrecursionlimit()
+    sys.setrecursionlimit(50000)
+    try:
+        for fam, (build, bounds) in THEOREM_FAMILIES.items():
+            for n in sizes:
+                src = build(n)
+                if not src:
+                    continue
+                sources.append(src)
+                for (chain, short), (kind, bound) in bounds.items():
+                    try:
+                        out = conv(ast.parse(src), symtable.symtable(src, "<s>", "exec"), lowercorr.make_configs(chain, short))
+                    except Exception as e:
+                        chk.add_violation("a program of a height-theorem family is refused by the converter", family=fam, n=n,
+                                          config=[chain, short], error=type(e).__name__ + ": " + str(e)[:200], source_head=src[:200])
+                        continue
+                    h = py_height(out)
+                    measured[f"{fam}/{n}/{'chain' if chain else 'list'}/{'short' if short else 'if_expr'}"] = h
+                    b = bound(n)
+                    if (kind == "le" and h > b) or (kind == "eq" and h != b):
+                        chk.add_violation("the real converter's output is deeper than the height theorem of this family states",
+                                          family=fam, n=n, config=[chain, short], height=h, theorem_bound=b, kind=kind,
+                                          source_head=src[:200])
+    finally:
+        sys.setrecursionlimit(old)
+    propkit.lower_correspondence(chk, sources, label="height-theorem families")
+    chk.coverage.setdefault("direct_oracle", {})["theorem_family_heights"] = measured
+
 
 
 def fam_statements(n):
@@ -181,6 +279,7 @@ def run(chk, build, replay=None):
         "ast.unparse) is run-time behaviour of the interpreter; the theorems bound the depth of the generated expression, the check "
         "measures acceptance on a geometric schedule with the default recursion limit",
     ]
+    theorem_families(chk)
     sched = SCHEDULE[chk.tier]
     jobs = []
     triples = diffexec.ALL_CONFIGS if chk.tier == "thorough" else [
